@@ -151,6 +151,13 @@ class Gen(object):
                 if rng.random() < 0.6:
                     k["password"] = gen_text(rng, rng.randint(0, 6))
         cid = gen_text(rng, rng.randint(1, 8), alphabet=["c", "l", "1", "é", "-"])
+        # leave arguments at their documented defaults now and then
+        if k["keepalive"] == 0 and rng.random() < 0.5:
+            del k["keepalive"]
+        if clean and rng.random() < 0.5:
+            del k["cleanStart"]
+        if ver == 4 and rng.random() < 0.5:
+            del k["version"]
         st = {"op": "app.call", "addr": addr, "m": "connect", "a": [cid], "k": k}
         if cfg["faults"]["reentrant"] and rng.random() < 0.4:
             then = []
@@ -202,6 +209,8 @@ class Gen(object):
               "k": {"topic": gen_topic(rng), "message": gen_payload(rng, cfg), "qos": qos}}
         if rng.random() < 0.3:
             st["k"]["retain"] = rng.random() < 0.7
+        if qos == 0 and rng.random() < 0.5:
+            del st["k"]["qos"]          # documented default
         if h:
             st["h"] = h
         if cfg["faults"]["reentrant"] and rng.random() < 0.15 and qos > 0:
@@ -218,6 +227,8 @@ class Gen(object):
         shape = rng.choice(["str", "tuple", "list", "list"])
         if shape == "str":
             a = [gen_topic(rng, True), rng.randint(0, 2)]
+            if a[1] == 0 and rng.random() < 0.5:
+                a = a[:1]               # documented default QoS
         elif shape == "tuple":
             a = [{"$": "tuple", "v": [gen_topic(rng, True), rng.randint(0, 2)]}]
         else:
@@ -366,6 +377,8 @@ class Gen(object):
                     return self.bad_connect(addr)
                 if r < 0.10:
                     return self.gate_call(addr, "cur", w, L)
+            if fam in ("args", "wire", "handshake") and rng.random() < 0.3:
+                return self.boundary_connect(addr)
             return self.connect_step(addr, w, L)
         # ---- connecting
         if st == "connecting":
@@ -660,6 +673,39 @@ class Gen(object):
         return {"op": "app.call", "addr": addr, "m": "unsubscribe", "tag": "bad",
                 "a": [rng.choice([5, {"$": "none"}, {"$": "obj"}, {"$": "tuple", "v": ["a", "b"]}, {"$": "bytes", "v": "61"}])]}
 
+    def boundary_connect(self, addr):
+        """connect() with arguments at the accepted end of each range (C20.B4, C02.W3)."""
+        rng = self.rng
+        ver = self.cfg["version"]
+        vv = {"$": "v31"} if ver == 3 else {"$": "v311"}
+        sess = self.cfg["session"]
+        clean = True if sess == "clean" else (False if sess == "persistent" else rng.random() < 0.4)
+        k = {"cleanStart": clean, "version": vv, "keepalive": rng.choice([0, 1, 65535, 65534])}
+        cid = rng.choice(["", "c"]) if ver == 4 else "c"
+        choice = rng.choice(["cid23", "will2", "will0", "bigwill", "user", "userpw", "bigcid", "emptypw", "utf8"])
+        if choice == "cid23":
+            cid = "x" * 23
+        elif choice == "will2":
+            k.update({"willTopic": "w/t", "willMessage": "", "willQoS": 2, "willRetain": True})
+        elif choice == "will0":
+            k.update({"willTopic": "w", "willMessage": "m", "willQoS": 0, "willRetain": False})
+        elif choice == "bigwill":
+            k.update({"willTopic": {"$": "rep", "s": "t", "n": 65535}, "willMessage": {"$": "rep", "s": "€", "n": 21845}, "willQoS": 1})
+        elif choice == "user":
+            k["username"] = {"$": "rep", "s": "u", "n": rng.choice([1, 127, 128, 65535])}
+        elif choice == "userpw":
+            k["username"] = "u"
+            k["password"] = {"$": "rep", "s": "é", "n": rng.choice([1, 64, 32767])}
+        elif choice == "bigcid" and ver == 4:
+            cid = {"$": "rep", "s": "i", "n": rng.choice([24, 128, 65535])}
+        elif choice == "emptypw":
+            k["username"] = ""
+            k["password"] = ""
+        else:
+            cid = "ñ€\U0001F600"[:3] if ver == 4 else "ñ€"
+            k["username"] = "\U0001F600/€"
+        return {"op": "app.call", "addr": addr, "m": "connect", "a": [cid], "k": k}
+
     def bad_connect(self, addr):
         """connect() with one argument the statement of C20 names as invalid."""
         rng = self.rng
@@ -724,7 +770,10 @@ class Gen(object):
         kind = _w(rng, [("mutate", 5), ("truncate", 2), ("extend", 2), ("firstbyte", 3), ("random", 2), ("badutf8", 1.5),
                         ("reserved", 1.5), ("shortpub", 2), ("longvarint", 0.5), ("qos3", 1.5), ("relfor", 1.0)])
         sess = w.broker.session(addr)
-        mid = rng.choice([1, 2, 3] + list(sess.need["PUBACK"]) [:2] + list(sess.need["PUBREC"])[:2])
+        inuse = []
+        for kk in ("PUBACK", "PUBREC", "PUBCOMP", "SUBACK", "UNSUBACK"):
+            inuse += list(sess.need[kk])[:2]
+        mid = rng.choice([1, 2, 3] + inuse + inuse)
         valid = [
             {"type": "CONNACK", "rc": 0, "session_present": False},
             {"type": "PUBLISH", "qos": 0, "topic": "a/b", "payload": b"xy"},
